@@ -37,6 +37,11 @@ CLAIMS["C18"] = ("who-may-call table over package os with path provenance + must
  "Trusted: go/ssa + go/types, POSIX rename atomicity and O_EXCL exclusivity, crypto/rand staging names. Not covered: power-loss durability (no fsync; outside the property), the EEXIST race in haveDir, actual crash/interleaving exploration.",
  "DESIGN.md section 3, C18")
 
+CLAIMS["C20"] = ("write-effect analysis (field/global writes with fresh-object tracking through loads and call sites) over the CHA-reachable code of a read-only entry table",
+ "A data race needs a write to shared memory; the rules bound who can write what: every write to a library package-level variable (direct, map update, or by reference through a callee that writes its parameter) is in init or the frozen registration API; no function CHA-reachable from the read-only entry table (walks, loads, ComputeLink, Wrap/Prototype, CompileSelector and Selector methods, DeepEqual/Copy, encoders, Registry lookups, TypeSystem getters, store reads) performs a non-fresh write to a field of a shared-by-construction type; hashers are per call. No schedule is explored.",
+ "Trusted: go/ssa + go/types, CHA as a sound over-approximation of calls, the Go memory model (no write, no race). Not covered: actual schedules, races inside dependencies or user callbacks, node storage (C11), per-walk state by contract (Budget, SeenLinks).",
+ "DESIGN.md section 3, C20")
+
 NOT_APPLICABLE = {
  "C13": "concerns the output of running the code generator on arbitrary schemas and the run-time equivalence of two engines; the generator's logic lives in text/template strings, so no typed program exists to analyse before execution (DESIGN.md section 4)",
 }
